@@ -58,6 +58,9 @@ def _spellings():
         "nan": lambda n: [float("nan")] * n,
         "obj": lambda n: [_Opaque() for _ in range(n)],
         "mixed-str": lambda n: [float(i) for i in range(n - 1)] + ["x"],
+        "nul-str": lambda n: ["s%d" % i for i in range(n - 1)] + ["a\x00b"],
+        "surrogate-str": lambda n: ["s%d" % i for i in range(n - 1)] + ["a\udc80b"],
+        "units": lambda n: ["mV", "s", "Hz", "kg", "uA"][:n],
         "mixed-none": lambda n: [float(i) for i in range(n - 1)] + [None],
         "mixed-obj": lambda n: [float(i) for i in range(n - 1)] + [_Opaque()],
         "huge-int": lambda n: [2 ** 70 + i for i in range(n)],
@@ -68,7 +71,7 @@ def _spellings():
     lens = (1, 2, 3, 5)
     for kind, mk in sorted(elems.items()):
         for n in lens:
-            if kind.startswith("mixed") and n == 1:
+            if kind.startswith(("mixed", "nul", "surrogate")) and n == 1:
                 continue
             add("list:%s:%d" % (kind, n), lambda c, mk=mk, n=n: mk(n))
         add("tuple:%s:3" % kind, lambda c, mk=mk: tuple(mk(3)))
@@ -92,6 +95,7 @@ def _spellings():
         "O-obj": lambda n: np.array([_Opaque() for _ in range(n)], dtype=object),
         "O-mixed": lambda n: np.array([1.0, "k", None, 2.0, _Opaque()][:n], dtype=object),
         "O-float": lambda n: np.array([float(i) for i in range(n)], dtype=object),
+        "O-nul": lambda n: np.array((["s%d" % i for i in range(n)] + ["a\x00b"])[-n:] if n else [], dtype=object),
         "M8": lambda n: np.arange(n).astype("datetime64[s]"),
         "m8": lambda n: np.arange(n).astype("timedelta64[s]"),
         "V": lambda n: np.zeros((n,), dtype=[("a", "i4"), ("b", "f8")]),
@@ -106,7 +110,7 @@ def _spellings():
         add("ndarray:%s:0-d" % kind, lambda c, mk=mk: mk(1).reshape(()))
         add("ndarray:%s:strided" % kind, lambda c, mk=mk: mk(6)[::2])
     # scalars and other objects
-    for label, v in [("int", 5), ("zero", 0), ("float", 1.5), ("str", "abc"), ("numstr", "1.5"), ("empty-str", ""),
+    for label, v in [("nul-str", "a\x00b"), ("surrogate-str", "a\udc80b"), ("unit-str", "mV"), ("int", 5), ("zero", 0), ("float", 1.5), ("str", "abc"), ("numstr", "1.5"), ("empty-str", ""),
                      ("bytes", b"xy"), ("true", True), ("false", False), ("complex", 1 + 2j), ("none", None),
                      ("nan", float("nan")), ("inf", float("inf")), ("neg", -3), ("huge", 2 ** 70),
                      ("np-float", np.float64(2.5)), ("np-int", np.int32(4)), ("np-str", np.str_("q")),
@@ -408,7 +412,7 @@ REBUILD_AFTER_ACCEPT = {t[0] for t in TARGETS if t[2] is None}
 
 # spellings every selected target sees in every run: one of each container x the element kinds that matter, always of
 # length 3 (the stored vectors hold 1-2 values in the short scene, 4-5 in the long one: the lengths always differ)
-CORE = ["list:float:3", "list:str:3", "list:obj:3", "list:mixed-str:3", "list:mixed-obj:3", "list:none:3",
+CORE = ["list:nul-str:3", "scalar:nul-str", "list:units:3", "list:surrogate-str:3", "list:float:3", "list:str:3", "list:obj:3", "list:mixed-str:3", "list:mixed-obj:3", "list:none:3",
         "list:complex:3", "list:nested:3", "list:ragged:3", "list:huge-int:3", "list:empty",
         "tuple:str:3", "tuple:float:3", "gen:float:3", "gen:str:3",
         "ndarray:f8:3", "ndarray:i8:3", "ndarray:U:3", "ndarray:S:3", "ndarray:O-str:3", "ndarray:O-mixed:3",
@@ -460,7 +464,7 @@ def plan(tier, seed, rng, broken=False):
         scenes = (False, True) if big else ((i + seed) % 2 == 1,)
         for long in scenes:
             if big:
-                n_core, n_extra = (len(CORE), 25) if is_rollback(t) else (len(CORE), 90)
+                n_core, n_extra = (len(CORE), 12) if is_rollback(t) else (len(CORE), 60)
             else:
                 n_core, n_extra = (10, 1) if is_rollback(t) else (len(CORE), 5)
             core = CORE if n_core >= len(CORE) else rng.sample(CORE, n_core)
